@@ -15,7 +15,9 @@
 //!
 //! Lean statements mirrored: `thick_width1_eq_points` (C17:thick-width1), `thick_contains_thin`
 //! (C17:thick-contains-thin; proved in the stronger form "the pixel sequence starts with points()");
-//! the other predicates are `-- [V]` sub-claims of lean/EG/Props/C17.lean (oracle only).
+//! mirrored Lean statements (lean/EG/Props/C17/Stroke.lean): `thick_no_pixel_twice` (C17:thick-duplicate),
+//! `thick_within_one_pixel_of_ends` (C17:thick-ends), `thick_solid` (C17:thick-hole), `thick_middle_width_partial`
+//! (C17:thick-middle-width, proved with w - 3), `thick_band_*` (C17:thick-band; false in general: known finding).
 //!
 //! Oracle = the second sentence of C17 as predicates on the real pixel list, with FIXED metrics,
 //! all in exact integer arithmetic (i128). Notation: s = start, d = (dx, dy) = end - start,
